@@ -329,6 +329,15 @@ def step (s : St) (j : Json) : Except String (St × Json) := do
       let eigs ← (← (← j.getObjVal? "eigs").getArr?).toList.mapM ofBitsJ
       let d := Decide.contractDecision (Decide.closeF tol) purity eigs
       pure (s, ok [("attempt", Json.bool d.attempt), ("index", toJson d.index)])
+  | "num_quanta" => do
+      let a ← cfArrOfJson (← j.getObjVal? "data")
+      let n ← (← j.getObjVal? "n").getNat?
+      let isMat := (j.getObjVal? "matrix").toOption.bind (·.getBool?.toOption) |>.getD false
+      let r : Option Nat :=
+        if isMat then
+          Decide.numQuantaMatrix Decide.nzCF ((List.range n).map fun r => (List.range n).map fun c => a.getD (r * n + c) 0)
+        else Decide.numQuantaVector Decide.nzCF a.toList
+      pure (s, ok [("q", match r with | some q => toJson q | none => Json.null)])
   | "kraus_check" => do
       let tol ← getF j "tol"
       let d ← (← j.getObjVal? "d").getNat?
